@@ -453,10 +453,17 @@ Qed.
 (* ====================== part 4 ====================== *)
 
 (* ---- the two levels do not disturb each other: each invariant only looks at a view of the heap ---- *)
-Inductive cview := VT (cols idxs : list oid) | VC (o : option oid) | VI (o : option oid) | VO.
+Inductive cview :=
+| VT (cols idxs : list oid) | VC (o : option oid) (ty : coltype) | VI (o : option oid)
+| VR (c1 c2 : option (list oid)) | VG (items : list oid) | VO.
+(* besides the children lists and owner pointers the table-level invariant reads, the view carries what never
+   changes after construction and what the linking statements of C05 are about: a column's type, the endpoint
+   lists of a reference, the items of a table group *)
 Definition cview_of (ob : obj) : cview :=
   match ob with
-  | OTable tb => VT (t_columns tb) (t_indexes tb) | OColumn c => VC (c_table c) | OIndex i => VI (i_table i) | _ => VO
+  | OTable tb => VT (t_columns tb) (t_indexes tb) | OColumn c => VC (c_table c) (c_type c) | OIndex i => VI (i_table i)
+  | OReference r => VR (r_col1 r) (r_col2 r) | OGroup g => VG (g_items g)
+  | _ => VO
   end.
 
 Lemma cview_table ob cols idxs : cview_of ob = VT cols idxs -> exists tb, ob = OTable tb /\ t_columns tb = cols /\ t_indexes tb = idxs.
